@@ -8,6 +8,8 @@ EXTENDS Controller
 MCCfgs == {[p |-> 2, d |-> 12, ep |-> 2, prep |-> 1, fork |-> f, ft |-> t, attd |-> 4, propd |-> 4, syncd |-> 4, vals |-> {1, 2}] :
               f \in {0, 1}, t \in BOOLEAN}
 
+\* job starts between the steps of a refresh: fast track on and off
+MCCfgsFork0 == {[p |-> 2, d |-> 12, ep |-> 2, prep |-> 1, fork |-> 0, ft |-> t, attd |-> 4, propd |-> 4, syncd |-> 4, vals |-> {1, 2}] : t \in BOOLEAN}
 MCCfgsNoFT == {[p |-> 2, d |-> 12, ep |-> 2, prep |-> 1, fork |-> f, ft |-> FALSE, attd |-> 4, propd |-> 4, syncd |-> 4, vals |-> {1, 2}] : f \in {0, 1}}
 MCCfgsOne == {[p |-> 2, d |-> 12, ep |-> 2, prep |-> 1, fork |-> 0, ft |-> FALSE, attd |-> 4, propd |-> 4, syncd |-> 4, vals |-> {1, 2}]}
 
